@@ -521,7 +521,9 @@ def history(run, recipe, cfgs, tags, pend, nontriv=None):
         # ---- truthfulness
         for clause, detail in units_after(after):
             run.fail(clause, wcase, detail)
-        if cond and idx is not None and cfg.get("sss") is None:
+        # (values passed as STRT= / STOP= / STEP= are the caller's own statement: they are stored as given, and a later plain write
+        # need not replace them when the stored STOP happens to agree with the data, so the clause speaks about histories without them)
+        if cond and idx is not None and not any(c.get("sss") is not None for c in cfgs[:w + 1]):
             fails, skip = truth(text, idx, cfg)
             if skip:
                 run.dist["truth-" + skip] += 1
